@@ -301,3 +301,22 @@ Theorem sort_id_maps_correct : forall mle ss ms ss' ms',
     ms' = map (fun im => set_parent (snd im) (remap_ref pmap (m_parent (snd im)))) sorted /\
     (forall p m, getz ms p = Ok m -> exists m1, getz sorted (pmap p) = Ok (p, m1)).
 Proof. exact sort_sites_mutations_remap. Qed.
+
+(* ---- round 3: collection-level attributes in the shared-portion check ---- *)
+(* with check_shared_equality, collections that differ in sequence length, time units or any
+   table's metadata schema are refused — also when the node mapping shares no node at all —
+   with TSK_ERR_UNION_DIFF_HISTORIES (unless the row-level check already fails otherwise) … *)
+Theorem union_refuses_differing_attributes : forall a_self a_other self other mapping addp,
+  attrs_eqb a_self a_other = false ->
+  is_ok (union_with_attrs a_self a_other self other mapping true addp) = false /\
+  (zlen mapping = zlen (t_nodes other) -> bad_map self mapping = false ->
+   (check_subset_equality self other mapping = Ok tt \/
+    check_subset_equality self other mapping = Err ERR_UNION_DIFF_HISTORIES) ->
+   union_with_attrs a_self a_other self other mapping true addp = Err ERR_UNION_DIFF_HISTORIES).
+Proof. exact union_attrs_refused_lemma. Qed.
+
+(* … and are otherwise irrelevant: without the check, or with equal attributes, it is [union] *)
+Theorem union_attributes_otherwise_irrelevant : forall a_self a_other self other mapping chk addp,
+  (chk = false \/ attrs_eqb a_self a_other = true) ->
+  union_with_attrs a_self a_other self other mapping chk addp = union self other mapping chk addp.
+Proof. exact union_attrs_equal_lemma. Qed.
